@@ -431,3 +431,57 @@ int signed_off_good(const uint8_t* in, size_t n, uint8_t* work, int count) {
     free(pre); free(suf);
     return 0;
 }
+
+/* ---- XXH64 formula rule (rules/xxh.py): a correct variant in an unusual arrangement (lane array, rotation
+ * table, word loads through memcpy, pre-added constants) and a twin whose 8-byte tail step rotates by 28. */
+#define CTL_P1 0x9E3779B185EBCA87ULL
+#define CTL_P2 0xC2B2AE3D27D4EB4FULL
+#define CTL_P3 0x165667B19E3779F9ULL
+#define CTL_P4 0x85EBCA77C2B2AE63ULL
+#define CTL_P5 0x27D4EB2F165667C5ULL
+static inline uint64_t ctl_rotl(uint64_t x, int r) { return (x << r) | (x >> (64 - r)); }
+static inline uint64_t ctl_rd64(const uint8_t* p) { uint64_t v; memcpy(&v, p, 8); return v; }
+static inline uint32_t ctl_rd32(const uint8_t* p) {
+    return (uint32_t)p[0] | ((uint32_t)p[1] << 8) | ((uint32_t)p[2] << 16) | ((uint32_t)p[3] << 24);
+}
+static inline uint64_t ctl_round(uint64_t acc, uint64_t in) { return ctl_rotl(acc + in * CTL_P2, 31) * CTL_P1; }
+static uint64_t ctl_xxh(const void* data, size_t length, uint64_t seed, int tail_rot) {
+    const uint8_t* p = (const uint8_t*)data;
+    size_t left = length;
+    uint64_t h;
+    if (length < 32) {
+        h = CTL_P5 + seed;
+    } else {
+        static const int rot[4] = {1, 7, 12, 18};
+        uint64_t lane[4];
+        lane[0] = seed + (CTL_P1 + CTL_P2);
+        lane[1] = CTL_P2 + seed;
+        lane[2] = seed;
+        lane[3] = seed - CTL_P1;
+        for (; left >= 32; left -= 32) {
+            for (int k = 0; k < 4; k++, p += 8) lane[k] = ctl_round(lane[k], ctl_rd64(p));
+        }
+        h = 0;
+        for (int k = 0; k < 4; k++) h += ctl_rotl(lane[k], rot[k]);
+        for (int k = 0; k < 4; k++) h = (h ^ ctl_round(0, lane[k])) * CTL_P1 + CTL_P4;
+    }
+    h += (uint64_t)length;
+    for (; left >= 8; left -= 8, p += 8) {
+        h ^= ctl_round(0, ctl_rd64(p));
+        h = CTL_P4 + ctl_rotl(h, tail_rot) * CTL_P1;
+    }
+    if (left >= 4) {
+        h ^= CTL_P1 * (uint64_t)ctl_rd32(p);
+        h = ctl_rotl(h, 23) * CTL_P2 + CTL_P3;
+        p += 4; left -= 4;
+    }
+    while (left--) {
+        h ^= *p++ * CTL_P5;
+        h = ctl_rotl(h, 11) * CTL_P1;
+    }
+    h = (h ^ (h >> 33)) * CTL_P2;
+    h = (h ^ (h >> 29)) * CTL_P3;
+    return h ^ (h >> 32);
+}
+uint64_t xxh_formula_good(const void* data, size_t length, uint64_t seed) { return ctl_xxh(data, length, seed, 27); }
+uint64_t xxh_formula_bad(const void* data, size_t length, uint64_t seed) { return ctl_xxh(data, length, seed, 28); }
